@@ -130,6 +130,41 @@ def component_lists(f: FuncInfo, arg: ast.AST) -> Optional[list[str]]:
     return None
 
 
+def innermost_rules(eng: Engine, ck: Check, rule: str):
+    """Files of an added / removed nested shared directory come from / go to the INNERMOST enclosing shared directory (shared by C07: each file
+    indexed under exactly one directory, and C08: the share mode that gates a file is the one of the directory it is filed under)."""
+    repo = eng.repo
+    # every consumer of _get_parent_directories takes the INNERMOST parent, consistently with the sort order of that function
+    gpd0 = eng.func(SHARES, 'SharesManager._get_parent_directories')
+    srt = [x for x in calls_in(gpd0.node) if call_name(x) in ('sorted', 'sort')]
+    if len(srt) != 1 or kw(srt[0], 'key') is None or 'len(' not in unparse(kw(srt[0], 'key')):
+        raise AnalysisError(f'{rule}: ordering idiom of _get_parent_directories not recognised')
+    # nesting depth is measured on the NORMALISED path (absolute_path): the configured string (`directory`) may be relative, carry `./` or `..`
+    ck.ob(rule, gpd0, srt[0], '_get_parent_directories orders the parents by the length of their absolute_path (all parents are prefixes of one normalised '
+          'path: longer = deeper)', 'absolute_path' in unparse(kw(srt[0], 'key')) and not any(isinstance(x_, ast.Attribute) and x_.attr in ('directory', 'alias') for x_ in ast.walk(kw(srt[0], 'key'))),
+          f'key `{unparse(kw(srt[0], "key"))}`: the length of an un-normalised string says nothing about nesting; with an outer directory configured by a longer string the '
+          'OUTERMOST parent is taken for the closest one, files of a friends-only directory are re-filed under a public one', construct='parents ordered by absolute path length')
+    descending = const(kw(srt[0], 'reverse')) is True
+    neg = isinstance(kw(srt[0], 'key'), ast.Lambda) and isinstance(kw(srt[0], 'key').body, ast.UnaryOp)
+    descending = descending != neg
+    want_idx = 0 if descending else -1
+    n_cons = 0
+    for f in repo.all_funcs():
+        if f.module.rel != SHARES:
+            continue
+        for n in walk_local(f.node):
+            if isinstance(n, ast.Assign) and isinstance(n.value, ast.Call) and call_name(n.value) == '_get_parent_directories' and isinstance(n.targets[0], ast.Name):
+                lst = n.targets[0].id
+                for sub in [x for x in walk_local(f.node) if isinstance(x, ast.Subscript) and isinstance(x.value, ast.Name) and x.value.id == lst]:
+                    n_cons += 1
+                    idx = const(sub.slice)
+                    ck.ob(rule, f, sub, f'{f.name}: items move to / come from the INNERMOST enclosing shared directory '
+                          f'(_get_parent_directories sorts {"longest path first" if descending else "longest path last"}, so the innermost parent is [{want_idx}])',
+                          idx == want_idx, f'`{unparse(sub)}` picks the outermost parent when more than two shared directories are nested',
+                          construct=f'{f.qualname} innermost parent')
+    ck.floor(rule, n_cons, 2)
+
+
 def run(eng: Engine, ck: Check):
     repo = eng.repo
     q = eng.func(SHARES, 'SharesManager.query')
@@ -577,30 +612,7 @@ def run(eng: Engine, ck: Check):
                 break
         ck.ob('R-C07-SCAN', sd, x, f'a file whose `{unparse(x.func)}` fails (vanished since the listing, dangling link) is skipped: OSError is caught at the file, the scan goes on',
               caught, why + ': the error leaves scan_directory, scan_directory_files discards the whole scan result', construct=f'scan survives {call_name(x)} failure')
-    # every consumer of _get_parent_directories takes the INNERMOST parent, consistently with the sort order of that function
-    gpd0 = eng.func(SHARES, 'SharesManager._get_parent_directories')
-    srt = [x for x in calls_in(gpd0.node) if call_name(x) in ('sorted', 'sort')]
-    if len(srt) != 1 or 'len(' not in unparse(kw(srt[0], 'key')) or 'absolute_path' not in unparse(kw(srt[0], 'key')):
-        raise AnalysisError('R-C07-INNERMOST: ordering idiom of _get_parent_directories not recognised')
-    descending = const(kw(srt[0], 'reverse')) is True
-    neg = isinstance(kw(srt[0], 'key'), ast.Lambda) and isinstance(kw(srt[0], 'key').body, ast.UnaryOp)
-    descending = descending != neg
-    want_idx = 0 if descending else -1
-    n_cons = 0
-    for f in repo.all_funcs():
-        if f.module.rel != SHARES:
-            continue
-        for n in walk_local(f.node):
-            if isinstance(n, ast.Assign) and isinstance(n.value, ast.Call) and call_name(n.value) == '_get_parent_directories' and isinstance(n.targets[0], ast.Name):
-                lst = n.targets[0].id
-                for sub in [x for x in walk_local(f.node) if isinstance(x, ast.Subscript) and isinstance(x.value, ast.Name) and x.value.id == lst]:
-                    n_cons += 1
-                    idx = const(sub.slice)
-                    ck.ob('R-C07-INNERMOST', f, sub, f'{f.name}: items move to / come from the INNERMOST enclosing shared directory '
-                          f'(_get_parent_directories sorts {"longest path first" if descending else "longest path last"}, so the innermost parent is [{want_idx}])',
-                          idx == want_idx, f'`{unparse(sub)}` picks the outermost parent when more than two shared directories are nested',
-                          construct=f'{f.qualname} innermost parent')
-    ck.floor('R-C07-INNERMOST', n_cons, 2)
+    innermost_rules(eng, ck, 'R-C07-INNERMOST')
     gpd = eng.func(SHARES, 'SharesManager._get_parent_directories')
     ok = others_related(gpd, 'is_parent_of')
     ck.ob('R-C07-SCAN', gpd, gpd.node, 'parent directories = other shared directories above this one, innermost last', ok, '', construct='parent directories')
